@@ -315,7 +315,9 @@ def show(v):
 
 class Analyzer:
     def __init__(self, prog, f, entry_state=None, call_summary=None, field_summary=None, global_tables=True,
-                 havoc_fields_on_call=True, load_hook=None, diffs=(), ghosts=None):
+                 havoc_fields_on_call=True, load_hook=None, diffs=(), ghosts=None, preserve_fields=()):
+        # preserve_fields: field names whose cells survive calls (the caller proves separately that no callee writes them)
+        self.preserve_fields = set(preserve_fields)
         # ghosts: name -> {varkey: coef}: tracks  sum(coef*var) - (its value at entry)  as a linear
         # form  const-interval + symbolic terms  (so that  len -= b; data += b  cancels exactly)
         self.ghosts = dict(ghosts or {})
@@ -1311,6 +1313,8 @@ class Analyzer:
         if killed or (not pure and self.havoc_fields_on_call):
             st2 = dict(st)
             for k2 in list(st2):
+                if self.preserve_fields and k2[0] == 'field' and k2[2] in self.preserve_fields:
+                    continue
                 if k2 in killed or any(_rooted(k2, kk) for kk in killed):
                     del st2[k2]
                 elif not pure and self.havoc_fields_on_call and k2[0] in ('field', 'deref') and not self._const_rooted(k2):
